@@ -83,7 +83,12 @@ def draw_config(rng, wl, tier):
         "np_seed": rng.randrange(2**31), "faults": [], "dur_scale": 1.0, "fail": [],
         "shared_memory": False, "callbacks": rng.choice([1, 1, 2]), "extra_kwargs": None,
         "settle": rng.random() < 0.7,
+        # an earlier analysis in the same process that is refused or aborts inside its Progress context;
+        # whatever it leaves in the global progress state meets the analysis under test (no settling between)
+        "prelude": rng.choice(["fit_one_point", "zhit_bad_order", "kk_two_points", "drt_unknown"]) if rng.random() < 0.2 else None,
     }
+    if cfg["prelude"]:
+        cfg["settle"] = False
     if rng.random() < 0.15:
         ov = rng.randint(1, 16)
         cfg["override"] = ov
@@ -132,8 +137,29 @@ def classify(wl, out):
                        "size": "tiny (<= 9 unmasked points)" if n_unmasked <= 9 else ("small (10-13 unmasked points)" if n_unmasked <= 13 else "normal (>= 14 unmasked points)")}
 
 
+PRELUDES = {
+    "fit_one_point": {"entry": "fit_circuit", "circuit": "R{R=100}(R{R=200}C{C=1e-6})", "kwargs": {"method": "leastsq", "weight": "boukamp"},
+                      "data": {"cdc": "R{R=100}(R{R=200}C{C=1e-6})", "logf": [4, 0], "n": 1, "mask": []}},
+    "zhit_bad_order": {"entry": "perform_zhit", "kwargs": {"smoothing": "modsinc", "polynomial_order": 3, "weights": {"__ones__": True}},
+                       "data": {"cdc": "R{R=100}(R{R=200}C{C=1e-6})", "logf": [4, 0], "n": 11, "mask": []}},
+    "kk_two_points": {"entry": "perform_kramers_kronig_test", "kwargs": {"test": "real"},
+                      "data": {"cdc": "R{R=100}(R{R=200}C{C=1e-6})", "logf": [4, 0], "n": 2, "mask": []}},
+    "drt_unknown": {"entry": "calculate_drt", "kwargs": {"method": "nope"},
+                    "data": {"cdc": "R{R=100}(R{R=200}C{C=1e-6})", "logf": [4, 0], "n": 9, "mask": []}},
+}
+
+
 def evaluate(wl, cfg, dec, ctx):
+    pre_bad = []
+    if cfg.get("prelude"):
+        pre = run_entry(PRELUDES[cfg["prelude"]], {"num_procs": 1, "callbacks": 1, "settle": True})
+        pre_bad = list(pre.bad_progress or [])
     out = run_entry(wl, cfg, dec, ctx.cache)
+    if cfg.get("prelude") and out.status != "skipped":
+        out.probes = dict(out.probes or {})
+        out.probes["prelude_" + cfg["prelude"]] = 1
+        if pre_bad:
+            out.bad_progress = list(out.bad_progress or []) + pre_bad
     if out.status == "skipped":
         return out, []
     viols = []
